@@ -96,6 +96,7 @@ def run(ck):
     samples = []
     cases = []
     dcases = []
+    xcases = []
     for deny in ((), ("openat2",)):
         tag = ",".join(deny) or "none"
         send = []
@@ -188,6 +189,11 @@ def run(ck):
                 dterm = D.case_term(job["tree"], res)
                 if dterm:
                     dcases.append((len(dcases), dterm, desc, res))
+            # tie T3: the model program run on the model kernel from the same tree
+            if rng.random() < (0.8 if thorough else 0.5):
+                j3 = dict(job)
+                j3["op"] = {k_: v_ for k_, v_ in op.items() if k_ != "_oracle"}
+                D.collect_exec(xcases, job["tree"], j3, res, not deny, ps, desc)
             if rng.random() < (0.5 if thorough else 0.3) and res.get("trace"):
                 cfg = warm_config(res["_warm"])
                 j2 = dict(job)
@@ -286,6 +292,7 @@ def run(ck):
                              {"job": J.describe(job), "deny": tag, "replay": rep, "real_outcome": res.get("res")}, False)
     if not ck.proof_broken:
         D.evaluate(ck, dcases, stats, "remove_all", coq_eval, "c13d")
+        D.evaluate_exec(ck, xcases, stats, coq_eval, "c13x")
     cov = {
         "evaluations": stats["ops"] + stats["races"],
         "distinct_nontrivial": len(nontrivial),
